@@ -1,11 +1,17 @@
 (* Properties/C10.v — the weighted graph's structure mirrors the model.  Statements only; proofs in
    Proofs/WGraphProofs.v.  [wbuild] transcribes weighted_graph_builder.go (Model/WGraph.v).  Proved for
    every model: node inventory facts (one node per unique label; exactly one operator node per operator
-   occurrence), the edge a computed userset / an operator contributes, and totality.  That the complete
-   decoded structure (operands in source order, kinds, labels, conditions) equals the model is checked on
-   every run by decoding the implementation's graph against the model (run/lib/graphspec.check_structure)
-   and by the correspondence with [wbuild]; it is not a theorem. *)
-From Verif Require Import Base.Str Base.Outcome Model.Ast Model.Printer Model.WGraph Spec.GraphWeights Proofs.WGraphProofs Proofs.BuilderFresh.
+   occurrence), the edge a computed userset / an operator contributes, and totality.  THE STRUCTURE (6-10,
+   Proofs/BuilderShape.v, ShapeLists.v): for every model in [shape_domain] (no relation declared twice, no name of
+   the model that reads as an operator node — decidable, evaluated on every generated model) and every relation,
+   the edges filed under "type#relation" and under each operator node created for it are exactly the lists
+   Spec/GraphShape.shape computes from the rewrite alone: a relation points to its operator or single operand,
+   operators point to their operands in source order (subtract last), a direct assignment gives one direct edge
+   per distinct target with its distinct condition names in first-occurrence order ("none" for none), a
+   tuple-to-userset one edge per distinct parent type labelled "type#tupleset", a computed userset a
+   computed/rewrite edge by the kinds of its end points; no other list is touched.  The implementation's graph is
+   compared with [wbuild] and, independently, decoded against the model (run/lib/graphspec.check_structure). *)
+From Verif Require Import Base.Str Base.Outcome Model.Ast Model.Printer Model.WGraph Spec.GraphWeights Proofs.WGraphProofs Proofs.BuilderFresh Spec.GraphShape Proofs.BuilderShape Proofs.ShapeLists Proofs.Witnesses.
 
 (* 1. a type, relation, referenced userset or wildcard never gets two nodes *)
 Theorem C10_one_node_per_label : forall m g, wbuild m = Ok g -> NoDup (map n_id (g_nodes g)).
@@ -55,3 +61,61 @@ Proof. reflexivity. Qed.
 Theorem C10_built_graph_is_unweighted : forall m g, wbuild m = Ok g ->
   unweighted g /\ (forall x e, In e (edges_from g x) -> e_from e = x).
 Proof. exact wbuild_unweighted. Qed.
+
+(* 6. THE STRUCTURE of the built graph, relation by relation *)
+Theorem C10_graph_mirrors_the_rewrites : forall m g,
+  wbuild m = Ok g -> shape_domain m = true ->
+  forall td r u, In td (m_types m) -> assoc r (td_rels td) = Some u ->
+  exists k, let '(l, created, k') := shape (ty_of g) td r k (td_name td ++ lit "#" ++ r) u [] in
+            edges_from g (td_name td ++ lit "#" ++ r) = l /\
+            (forall oid es, In (oid, es) created -> edges_from g oid = es) /\ k' <= g_ops g.
+Proof. exact wbuild_shape. Qed.
+
+(* 7. one rewrite below one parent: the parent's list, the operator nodes created with their lists, the operator
+      count, and nothing else changes *)
+Theorem C10_one_rewrite : forall ty m td rel u g p g',
+  parse_rewrite g p m td rel u = Ok g' ->
+  find_node (n_id p) (g_nodes g) = Some p -> fresh_ops g -> old_id g (n_id p) ->
+  Forall nonop (req_ids td rel u) -> ty_ok ty g' ->
+  result_ok g g' (n_id p) (shape ty td rel (g_ops g) (n_id p) u (edges_from g (n_id p))).
+Proof. intros ty m td rel u. exact (parse_rewrite_shape ty m td rel u). Qed.
+
+(* 8. a direct assignment: one direct edge per distinct target, distinct condition names in first-occurrence order *)
+Theorem C10_direct_assignment_edges : forall from refs,
+  l_this from refs [] =
+  map (fun t => {| e_from := from; e_to := t; e_type := EDirect; e_tupleset := [];
+                   e_conds := dedup (map (fun r => normc (rr_cond r)) (filter (fun r => str_eqb (ref_id r) t) refs));
+                   e_weights := []; e_wild := [] |})
+      (dedup (map ref_id refs)).
+Proof. exact l_this_closed_form. Qed.
+
+(* 9. a tuple-to-userset: one edge per distinct parent type, labelled "type#tupleset" *)
+Theorem C10_tuple_to_userset_edges : forall from label cu refs,
+  l_ttu from label cu refs [] =
+  map (fun ty => mk_edge from (ty ++ lit "#" ++ cu) ETTU label (normc (first_cond ty refs))) (dedup (map rr_type refs)).
+Proof. exact l_ttu_closed_form. Qed.
+
+(* 10. operands in source order, repeated operands kept; an operator is reached by one rewrite edge *)
+Theorem C10_operands_in_source_order : forall ty td rel oid rs k ol created,
+  shape_children ty td rel k oid (map UComputed rs) ol created =
+  (ol ++ map (fun r => mk_edge oid (td_name td ++ lit "#" ++ r) (computed_kind ty oid (td_name td ++ lit "#" ++ r)) [] no_cond) rs,
+   created, k).
+Proof. exact shape_children_computed. Qed.
+
+Theorem C10_exclusion_subtract_last : forall ty td rel k pid b s l,
+  shape ty td rel k pid (UDiff b s) l = shape_operator ty td rel k pid (lit "exclusion") [b; s] l.
+Proof. intros. apply shape_op. Qed.
+
+(* non-vacuity: the example model of Spec/GraphWeights.v is in the domain and its viewer relation is mirrored *)
+Example C10_structure_example :
+  shape_domain m_good = true /\
+  exists g, wbuild m_good = Ok g /\ forall td, In td (m_types m_good) -> forall r u, assoc r (td_rels td) = Some u ->
+    exists k, fst (fst (shape (ty_of g) td r k (td_name td ++ lit "#" ++ r) u [])) = edges_from g (td_name td ++ lit "#" ++ r).
+Proof.
+  split; [vm_compute; reflexivity|].
+  assert (H : exists g, wbuild m_good = Ok g).
+  { destruct (wbuild m_good) as [g|w|w] eqn:E; [exists g; reflexivity| |]; exfalso; vm_compute in E; discriminate E. }
+  destruct H as [g E]. exists g. split; [exact E|]. intros td Htd r u Hu.
+  destruct (wbuild_shape m_good g E ltac:(vm_compute; reflexivity) td r u Htd Hu) as [k Hk]. exists k.
+  destruct (shape (ty_of g) td r k (td_name td ++ lit "#" ++ r) u []) as [[l c] k']. cbn. symmetry. exact (proj1 Hk).
+Qed.
